@@ -1238,7 +1238,19 @@ func (p *Prog) foundIndexFacts(a Atom) []string {
 			case *ssa.Phi:
 				// a merge of the "found" variable is walked into; a loop counter (a merge whose
 				// constant source is not the sentinel: `for i := 0; …`) is the index itself
-				if phiHasOtherConst(y, -1, map[*ssa.Phi]bool{}) {
+				// ... unless it merges the found variable itself (one of its sources is a merge
+				// already seen, or the sentinel): `pos` kept or set in the body of a loop that
+				// runs `for i := 0; pos < 0 && i < n; i++`
+				family := false
+				for _, ye := range y.Edges {
+					if yp, ok := ye.(*ssa.Phi); ok && seen[yp] {
+						family = true
+					}
+					if c, ok := ConstInt(ye); ok && c == -1 {
+						family = true
+					}
+				}
+				if !family && phiHasOtherConst(y, -1, map[*ssa.Phi]bool{}) {
 					srcs = append(srcs, src{e, x.Block().Preds[i]})
 				} else {
 					walk(y)
